@@ -177,8 +177,11 @@ fn child_main(argv: &[String]) -> ! {
 }
 
 // ===================================================================================== regions
-/// (kind, bytes) of every region of a file, kinds: header wal payload time lex vec memories mesh sketch toc footer gap other
-fn regions(bytes: &[u8]) -> Result<BTreeMap<String, Vec<u8>>, String> {
+const KINDS: [&str; 13] = ["header", "wal", "payload", "time", "lex", "vec", "memories", "mesh", "sketch", "toc", "footer", "gap", "tail"];
+
+/// kind index of every byte of the file (regions from the header, the TOC and the footer; bytes nothing refers to
+/// are `gap` before the footer and `tail` after it)
+fn owners(bytes: &[u8]) -> Result<Vec<u8>, String> {
     if bytes.len() < HEADER_SIZE + FOOTER_SIZE { return Err("short file".into()); }
     let hb: &[u8; HEADER_SIZE] = bytes[..HEADER_SIZE].try_into().unwrap();
     let hdr = HeaderCodec::decode(hb).map_err(|e| format!("header: {e}"))?;
@@ -204,14 +207,25 @@ fn regions(bytes: &[u8]) -> Result<BTreeMap<String, Vec<u8>>, String> {
     add(foot.toc_offset as u64, foot.toc_bytes.len() as u64, "toc");
     add(foot.footer_offset as u64, FOOTER_SIZE as u64, "footer");
     let mut owner: Vec<u8> = vec![255; len];
-    const KINDS: [&str; 13] = ["header", "wal", "payload", "time", "lex", "vec", "memories", "mesh", "sketch", "toc", "footer", "gap", "tail"];
     for (a, e, k) in &marks { let ki = KINDS.iter().position(|x| x == k).unwrap() as u8; for o in *a..*e { if owner[o] == 255 { owner[o] = ki; } } }
     let tail_from = foot.footer_offset + FOOTER_SIZE;
+    for (o, w) in owner.iter_mut().enumerate() { if *w == 255 { *w = if o >= tail_from { 12 } else { 11 }; } }
+    Ok(owner)
+}
+
+/// (kind, bytes) of every region kind of a file
+fn regions(bytes: &[u8]) -> Result<BTreeMap<String, Vec<u8>>, String> {
+    let owner = owners(bytes)?;
     let mut out: BTreeMap<String, Vec<u8>> = BTreeMap::new();
-    for (o, byte) in bytes.iter().enumerate() {
-        let k = if owner[o] != 255 { KINDS[owner[o] as usize] } else if o >= tail_from { "tail" } else { "gap" };
-        out.entry(k.to_string()).or_default().push(*byte);
-    }
+    for (o, byte) in bytes.iter().enumerate() { out.entry(KINDS[owner[o] as usize].to_string()).or_default().push(*byte); }
+    Ok(out)
+}
+
+/// (start offset, kind) of every maximal run of bytes of one kind
+fn region_spans(bytes: &[u8]) -> Result<Vec<(usize, String)>, String> {
+    let owner = owners(bytes)?;
+    let mut out = vec![];
+    for o in 0..owner.len() { if o == 0 || owner[o] != owner[o - 1] { out.push((o, KINDS[owner[o] as usize].to_string())); } }
     Ok(out)
 }
 
@@ -222,6 +236,15 @@ fn differing_regions(a: &[u8], bb: &[u8]) -> Result<(BTreeSet<String>, BTreeSet<
     let kinds: BTreeSet<String> = ra.keys().chain(rb.keys()).cloned().collect();
     for k in &kinds { if ra.get(k) != rb.get(k) { diff.insert(k.clone()); } }
     Ok((diff, ra.keys().cloned().collect()))
+}
+
+/// kinds of the model's regions present in the file, ordered by first byte
+fn region_order(bytes: &[u8]) -> Result<Vec<String>, String> {
+    let spans = region_spans(bytes)?;
+    let mut first: Vec<(usize, String)> = vec![];
+    for (o, k) in spans { if k != "gap" && k != "tail" && !first.iter().any(|(_, kk)| *kk == k) { first.push((o, k)); } }
+    first.sort();
+    Ok(first.into_iter().map(|(_, k)| k).collect())
 }
 
 // ===================================================================================== twin runs
@@ -257,29 +280,345 @@ fn run_twins(batch: &[Value]) -> Result<Vec<Twin>, String> {
     Ok(out)
 }
 
+// ===================================================================================== model wire
+struct Wire { ops: String, queries: String }
+
+fn intern(table: &mut Vec<String>, key: &str) -> usize {
+    if let Some(i) = table.iter().position(|k| k == key) { i } else { table.push(key.to_string()); table.len() - 1 }
+}
+
+/// the request line for the model driver; the triplet extractor is a black box, its output for each put is read
+/// off run A (cards built by engine "rules" whose source is that put's WAL sequence)
+fn wire(hist: &Value, report_a: &Value) -> Wire {
+    let mut slots: Vec<String> = vec![];
+    let mut values: Vec<String> = vec![];
+    let final_cards = report_a["reopened"]["cards"].as_array().cloned().unwrap_or_default();
+    let results: Vec<String> = report_a["results"].as_array().map(|a| a.iter().map(|x| x.as_str().unwrap_or("").to_string()).collect()).unwrap_or_default();
+    let mut out = vec![];
+    for (i, op) in hist["ops"].as_array().cloned().unwrap_or_default().iter().enumerate() {
+        let kind = s(op, "op").unwrap_or_default();
+        let w = match kind.as_str() {
+            "put" => {
+                let uri = s(op, "uri").and_then(|u| u.rsplit('/').next().and_then(|n| n.parse::<u64>().ok())).unwrap_or(0);
+                let mut trip = vec![];
+                if b(op, "triplets") {
+                    if let Some(seq) = results.get(i).and_then(|r| r.strip_prefix("ok ")).and_then(|n| n.parse::<u64>().ok()) {
+                        for c in &final_cards {
+                            if c["engine"].as_str() == Some("rules") && c["source_frame_id"].as_u64() == Some(seq) {
+                                let key = format!("{}:{}", c["entity"].as_str().unwrap_or("").to_lowercase(), c["slot"].as_str().unwrap_or("").to_lowercase());
+                                trip.push(format!("{}.{}", intern(&mut slots, &key), intern(&mut values, c["value"].as_str().unwrap_or(""))));
+                            }
+                        }
+                    }
+                }
+                format!("p:{}:{}:{}:{}:{}", op["ts"].as_i64().unwrap_or(0), hexw(&payload_of(op)).replace('-', "00"), uri, if b(op, "instant") { 1 } else { 0 },
+                    if trip.is_empty() { "-".to_string() } else { trip.join(",") })
+            }
+            "update" => format!("u:{}:{}:{}", op["id"].as_u64().unwrap_or(0), op.get("ts").and_then(|x| x.as_i64()).map(|t| t.to_string()).unwrap_or("~".into()),
+                if op.get("text").is_some() || op.get("hex").is_some() { hexw(&payload_of(op)) } else { "~".into() }),
+            "delete" => format!("d:{}", op["id"].as_u64().unwrap_or(0)),
+            "card" => {
+                let key = format!("{}:{}", s(op, "entity").unwrap_or_default().to_lowercase(), s(op, "slot").unwrap_or_default().to_lowercase());
+                format!("k:{}:{}:{}:{}", intern(&mut slots, &key), intern(&mut values, &s(op, "value").unwrap_or_default()),
+                    op.get("frame").and_then(|x| x.as_u64()).unwrap_or(0), op.get("created").and_then(|x| x.as_i64()).unwrap_or(0))
+            }
+            "commit" => "c".into(),
+            "reopen" => "r".into(),
+            "search" => format!("s:{}", s(op, "q").unwrap_or_default().bytes().next().unwrap_or(b'k')),
+            _ => "c".into(),
+        };
+        out.push(w);
+    }
+    let qs: Vec<String> = hist.get("queries").and_then(|x| x.as_array()).map(|a| a.iter().filter_map(|q| q.as_str()).map(|q| q.bytes().next().unwrap_or(b'k').to_string()).collect()).unwrap_or_default();
+    Wire { ops: if out.is_empty() { "-".into() } else { out.join(";") }, queries: if qs.is_empty() { "-".into() } else { qs.join(",") } }
+}
+
+fn field<'a>(ans: &'a str, name: &str) -> &'a str {
+    for part in ans.split(" | ") { if let Some(v) = part.strip_prefix(&format!("{name}=")) { return v; } }
+    ""
+}
+
+/// the implementation's side of the line the model prints (res/live/final/tl/cards/present)
+fn frames_wire(obs: &Value) -> String {
+    let Some(frames) = obs.get("frames").and_then(|x| x.as_array()) else { return "?".into() };
+    if frames.is_empty() { return "-".into(); }
+    frames.iter().map(|f| {
+        let fr = &f["frame"];
+        let st = match fr["status"].as_str().unwrap_or("?") { "active" | "Active" => "a", "superseded" | "Superseded" => "s", "deleted" | "Deleted" => "x", _ => "?" };
+        let o = |v: &Value| v.as_u64().map(|n| n.to_string()).unwrap_or("~".into());
+        let len = f["content"].as_str().and_then(|c| c.split(' ').nth(1)).unwrap_or("?").to_string();
+        format!("{}:{}:{}:{}:{}", fr["timestamp"].as_i64().unwrap_or(0), st, o(&fr["supersedes"]), o(&fr["superseded_by"]), len)
+    }).collect::<Vec<_>>().join(",")
+}
+
+fn timeline_wire(obs: &Value) -> String {
+    match obs["timeline"][0].as_array() {
+        Some(a) if a.is_empty() => "-".into(),
+        Some(a) => a.iter().map(|e| e[0].as_u64().unwrap_or(0).to_string()).collect::<Vec<_>>().join(","),
+        None => "?".into(),
+    }
+}
+
+fn results_wire(hist: &Value, rep: &Value) -> String {
+    let ops = hist["ops"].as_array().cloned().unwrap_or_default();
+    let rs: Vec<String> = rep["results"].as_array().map(|a| a.iter().map(|x| x.as_str().unwrap_or("").to_string()).collect()).unwrap_or_default();
+    if rs.is_empty() { return "-".into(); }
+    rs.iter().enumerate().map(|(i, r)| {
+        let kind = ops.get(i).and_then(|o| s(o, "op")).unwrap_or_default();
+        // what a search returns is the black-box engine's business (it is compared between the two runs, not with the model)
+        if kind == "search" { return if r.starts_with("panic") { "search-panic".to_string() } else { "hits".to_string() }; }
+        if r == "ok" || r == "ok " { "done".into() }
+        else if let Some(n) = r.strip_prefix("ok ") { format!("ok{n}") }
+        else if r.starts_with("err") { "err".into() } else { r.split(' ').next().unwrap_or("?").to_string() }
+    }).collect::<Vec<_>>().join(",")
+}
+
+/// kinds present in a file, in the order of their first byte (dead bytes and the tail are not regions of the model)
+fn present_wire(bytes: &[u8]) -> String {
+    match region_order(bytes) { Ok(v) => v.join(","), Err(e) => format!("?{e}") }
+}
+
+/// timestamps of the tombstone records physically in the WAL region
+fn tombstone_timestamps(bytes: &[u8]) -> Vec<i64> {
+    let mut out = vec![];
+    let Ok(hdr) = HeaderCodec::decode(match bytes.get(..HEADER_SIZE).and_then(|x| <&[u8; HEADER_SIZE]>::try_from(x).ok()) { Some(h) => h, None => return out }) else { return out };
+    let (off, size) = (hdr.wal_offset as usize, hdr.wal_size as usize);
+    let mut cur = 0usize;
+    while cur + 48 <= size && off + cur + 48 <= bytes.len() {
+        let rec = &bytes[off + cur..];
+        let seq = u64::from_le_bytes(rec[..8].try_into().unwrap());
+        let len = u32::from_le_bytes(rec[8..12].try_into().unwrap()) as usize;
+        if (seq == 0 && len == 0) || len == 0 || cur + 48 + len > size || off + cur + 48 + len > bytes.len() { break; }
+        let payload = &rec[48..48 + len];
+        if memvid_core::memvid::mutation::verif_wal_entry_kind(payload) == Some(2) && payload.len() >= 12 {
+            out.push(i64::from_le_bytes(payload[4..12].try_into().unwrap()));
+        }
+        cur += 48 + len;
+    }
+    out
+}
+
+const SIG_LEX: &str = "file-bytes-differ-tantivy-segment-ids";
+const SIG_HASH: &str = "file-bytes-differ-hashmap-order-in-memories-track";
+const SIG_CLOCK: &str = "file-bytes-differ-wall-clock-values-in-file";
+
+/// compare the two executions of one history; model correspondence on run A
+fn judge(hist: &Value, t: &Twin, drv: &mut Option<Driver>, sum: &mut Summary, known: &[String], verbose: bool) {
+    let case = hist.clone();
+    if t.a.get("fatal").is_some() || t.b.get("fatal").is_some() {
+        sum.oracle_violation("execution-failed", &format!("A: {} B: {}", t.a["fatal"], t.b["fatal"]), case); return;
+    }
+    // ---- property oracle, part 2: logical observations (independent of the model)
+    let strip = |v: &Value| { let mut v = v.clone(); if let Some(o) = v.as_object_mut() { o.remove("cards_created_at"); } v };
+    let mut logical_ok = true;
+    if t.a["results"] != t.b["results"] { logical_ok = false; sum.oracle_violation("call-results-differ-between-runs", &format!("A {} B {}", t.a["results"], t.b["results"]), case.clone()); }
+    for k in ["live", "reopened"] {
+        if strip(&t.a[k]) != strip(&t.b[k]) {
+            logical_ok = false;
+            let (oa, ob) = (strip(&t.a[k]), strip(&t.b[k]));
+            let which: Vec<String> = oa.as_object().map(|o| o.keys().filter(|kk| oa[kk.as_str()] != ob[kk.as_str()]).cloned().collect()).unwrap_or_default();
+            sum.oracle_violation(&format!("logical-state-differs-between-runs-{}", which.first().cloned().unwrap_or("observation".into())),
+                &format!("{k} observation differs in {which:?}"), case.clone());
+        }
+    }
+    if logical_ok { sum.branch("logical-observations-equal"); }
+    let created_differ = t.a["reopened"]["cards_created_at"] != t.b["reopened"]["cards_created_at"];
+    let (tomb_a, tomb_b) = (tombstone_timestamps(&t.file_a), tombstone_timestamps(&t.file_b));
+    let tomb_differ = tomb_a != tomb_b;
+    if created_differ { sum.branch("clock-in-card-created-at"); }
+    if tomb_differ { sum.branch("clock-in-wal-tombstone"); }
+    // ---- model correspondence (run A)
+    let mut may: Option<BTreeSet<String>> = None;
+    let mut causes = String::new();
+    let imp_line = format!("res={} | live={} | final={} | tl={}/{} | cards={} | present={}", results_wire(hist, &t.a), frames_wire(&t.a["live"]), frames_wire(&t.a["reopened"]),
+        timeline_wire(&t.a["live"]), timeline_wire(&t.a["reopened"]), t.a["reopened"]["cards"].as_array().map(|a| a.len()).unwrap_or(0), present_wire(&t.file_a));
+    if let Some(d) = drv.as_mut() {
+        let w = wire(hist, &t.a);
+        let ans = d.ask(&format!("run {} {}", w.ops, w.queries));
+        let model_line = format!("res={} | live={} | final={} | tl={} | cards={} | present={}", field(&ans, "res"), field(&ans, "live"), field(&ans, "final"), field(&ans, "tl"), field(&ans, "cards"), field(&ans, "present"));
+        if verbose { println!("model: {ans}\nimpl : {imp_line}"); }
+        if model_line != imp_line { sum.disagreement("history: model vs implementation (run A)", case.clone(), &ans, &imp_line); }
+        if field(&ans, "logical") != "same" { sum.disagreement("model twin runs differ logically (contradicts C23_logical)", case.clone(), &ans, ""); }
+        may = Some(field(&ans, "may").split(',').filter(|x| *x != "-" && !x.is_empty()).map(|x| x.to_string()).collect());
+        causes = field(&ans, "causes").to_string();
+        let twin: BTreeSet<String> = field(&ans, "twin").split(',').filter(|x| *x != "-" && !x.is_empty()).map(|x| x.to_string()).collect();
+        if !twin.is_subset(may.as_ref().unwrap()) { sum.disagreement("model twin diff not inside mayDiffer (contradicts C23_regions)", case.clone(), &ans, ""); }
+    } else if verbose { println!("impl : {imp_line}"); }
+    // ---- property oracle, part 1: file bytes
+    let canon = format!("{}", hist);
+    let nontrivial = hist["ops"].as_array().map(|o| o.iter().any(|x| matches!(s(x, "op").as_deref(), Some("put") | Some("card")))).unwrap_or(false);
+    if t.file_a == t.file_b {
+        sum.branch("bytes-identical");
+        if let Some(m) = &may { if m.iter().all(|k| k == "gap") { sum.branch("bytes-identical-as-predicted"); } else { sum.branch("bytes-identical-though-model-allows-difference"); } }
+    } else {
+        sum.branch("bytes-differ");
+        match differing_regions(&t.file_a, &t.file_b) {
+            Err(e) => { sum.oracle_violation("file-not-parseable", &e, case.clone()); }
+            Ok((diff, _)) => {
+                if verbose { println!("differing regions: {diff:?}  model may-differ: {may:?}  causes: {causes}"); }
+                let what = format!("files differ in regions {:?} (lengths {} / {}); model causes: {causes}", diff, t.file_a.len(), t.file_b.len());
+                match &may {
+                    None => { sum.oracle_violation("file-bytes-differ", &what, case.clone()); }
+                    Some(m) => {
+                        let extra: Vec<&String> = diff.iter().filter(|k| !m.contains(*k) && k.as_str() != "tail").collect();
+                        let tail_bad = diff.contains("tail") && !m.contains("gap");
+                        if !extra.is_empty() || tail_bad {
+                            sum.oracle_violation("file-bytes-differ-in-region-the-model-holds-deterministic", &format!("{what}; not predicted: {extra:?}"), case.clone());
+                        } else {
+                            // attribute every differing region to a recorded failure class
+                            let has = |c: &str| causes.contains(c);
+                            let mut sigs: BTreeSet<&str> = BTreeSet::new();
+                            let mut unattributed = vec![];
+                            for k in &diff {
+                                let mut ok = false;
+                                match k.as_str() {
+                                    "lex" => { if has("uuid:") { sigs.insert(SIG_LEX); ok = true; } }
+                                    "memories" => {
+                                        if has("hashSeed:") { sigs.insert(SIG_HASH); ok = true; }
+                                        if has("clock:card-created-at") && created_differ { sigs.insert(SIG_CLOCK); ok = true; }
+                                    }
+                                    "wal" => {
+                                        if has("uuid:") { sigs.insert(SIG_LEX); ok = true; }
+                                        if has("clock:wal-tombstone") && tomb_differ { sigs.insert(SIG_CLOCK); ok = true; }
+                                        if has("clock:wal-tombstone") && !has("uuid:") && !tomb_differ { ok = false; }
+                                    }
+                                    _ => { ok = has("uuid:") || has("hashSeed:") || has("clock:"); }
+                                }
+                                if !ok { unattributed.push(k.clone()); }
+                            }
+                            let unknown: Vec<&&str> = sigs.iter().filter(|sg| !known.iter().any(|k| k == **sg)).collect();
+                            if !unattributed.is_empty() || !unknown.is_empty() || sigs.is_empty() {
+                                sum.oracle_violation(sigs.iter().next().copied().unwrap_or("file-bytes-differ"), &format!("{what}; unattributed {unattributed:?}"), case.clone());
+                            } else {
+                                for sg in &sigs { sum.known_finding(sg, &what, case.clone()); sum.branch(&format!("known:{sg}")); }
+                                if m.iter().filter(|k| k.as_str() != "gap").all(|k| diff.contains(k)) { sum.branch("diff-set-exactly-as-predicted"); } else { sum.branch("diff-set-smaller-than-predicted"); }
+                            }
+                        }
+                    }
+                }
+            }
+        }
+    }
+    let nops = hist["ops"].as_array().map(|a| a.len()).unwrap_or(0);
+    sum.case(&canon, nontrivial, || json!({"ops": nops, "bytes_equal": t.file_a == t.file_b, "file_len": t.file_a.len(), "causes": causes}));
+}
+
+// ===================================================================================== generator
+const WORDS: &[&str] = &["kiwi", "zebra", "quartz", "walnut", "falcon", "lorem", "ipsum", "dolor"];
+const FACTS: &[&str] = &["Alice works at Acme Corp.", "Bob lives in Paris.", "Carol works at Initech. Carol lives in Berlin.", "Dave is a doctor."];
+
+fn gen_text(rng: &mut Rng) -> String {
+    let n = rng.usize(1, 12);
+    (0..n).map(|_| *rng.pick(WORDS)).collect::<Vec<_>>().join(" ")
+}
+
+fn gen_history(rng: &mut Rng) -> Value {
+    let frameless = rng.chance(1, 6);
+    let nops = rng.usize(1, 9);
+    let mut ops = vec![];
+    let mut puts = 0u64;
+    let mut uri = 0u64;
+    for _ in 0..nops {
+        let roll = rng.below(100);
+        if frameless {
+            // histories without frames: the only ones whose bytes the default build keeps identical
+            match roll { 0..=39 => ops.push(json!({"op": "card", "entity": "alice", "slot": "employer", "value": *rng.pick(&["acme", "initech", "globex"]), "created": rng.i64(1, 50), "frame": 0})),
+                40..=59 => ops.push(json!({"op": "commit"})), 60..=74 => ops.push(json!({"op": "reopen"})), 75..=84 => ops.push(json!({"op": "search", "q": "kiwi", "k": 5})),
+                85..=92 => ops.push(json!({"op": "delete", "id": rng.below(2)})), _ => ops.push(json!({"op": "update", "id": rng.below(2), "text": "kiwi"})) }
+            continue;
+        }
+        match roll {
+            0..=44 => {
+                let triplets = rng.chance(1, 5);
+                let text = if triplets { format!("{} {}", rng.pick(FACTS), gen_text(rng)) } else { gen_text(rng) };
+                let ts = if rng.chance(1, 3) { 1_700_000_000 } else { 1_700_000_000 + rng.i64(-5000, 5000) };
+                uri += 1;
+                if rng.chance(1, 8) { let nb = rng.usize(1, 40); ops.push(json!({"op": "put", "hex": hex::encode(rng.bytes(nb)), "ts": ts, "uri": format!("mv2://c23/{uri}"), "instant": rng.bool()})); }
+                else { ops.push(json!({"op": "put", "text": text, "ts": ts, "uri": format!("mv2://c23/{uri}"), "instant": rng.bool(), "triplets": triplets})); }
+                puts += 1;
+            }
+            45..=59 => ops.push(json!({"op": "commit"})),
+            60..=69 => ops.push(json!({"op": "delete", "id": rng.below(puts + 2)})),
+            70..=77 => { let mut o = json!({"op": "update", "id": rng.below(puts + 2)}); if rng.bool() { o["text"] = json!(gen_text(rng)); } if rng.chance(1, 3) { o["ts"] = json!(1_700_000_000 + rng.i64(-5000, 5000)); } ops.push(o); }
+            78..=85 => ops.push(json!({"op": "card", "entity": *rng.pick(&["alice", "bob", "carol"]), "slot": *rng.pick(&["employer", "city"]), "value": *rng.pick(&["acme", "paris", "globex"]), "created": rng.i64(1, 50), "frame": rng.below(puts + 1)})),
+            86..=92 => ops.push(json!({"op": "reopen"})),
+            _ => ops.push(json!({"op": "search", "q": *rng.pick(WORDS), "k": rng.usize(1, 6)})),
+        }
+    }
+    json!({"ops": ops, "queries": ["kiwi", "zebra", "alice"]})
+}
+
+/// hand-written corpus: the witnesses of the recorded findings first
+fn corpus() -> Vec<Value> {
+    let q = json!(["kiwi", "zebra"]);
+    vec![
+        // witness of file-bytes-differ-tantivy-segment-ids
+        json!({"ops": [{"op": "put", "text": "kiwi walnut falcon", "ts": 1700000000, "uri": "mv2://c23/1"}], "queries": q}),
+        // witness of file-bytes-differ-hashmap-order-in-memories-track (no frame: nothing else can differ)
+        json!({"ops": (0..8).map(|i| json!({"op": "card", "entity": format!("e{i}"), "slot": "city", "value": "paris", "created": 5 + i, "frame": 0})).collect::<Vec<_>>(), "queries": q}),
+        // witness of file-bytes-differ-wall-clock-values-in-file: tombstone timestamp + extractor-built cards
+        json!({"ops": [{"op": "put", "text": "Alice works at Acme Corp. Bob lives in Paris.", "ts": 1700000000, "uri": "mv2://c23/1", "triplets": true}, {"op": "commit"}, {"op": "delete", "id": 0}], "queries": q}),
+        // byte-identical class: no frame, at most one slot
+        json!({"ops": [], "queries": q}),
+        json!({"ops": [{"op": "commit"}, {"op": "reopen"}, {"op": "search", "q": "kiwi", "k": 3}], "queries": q}),
+        json!({"ops": [{"op": "card", "entity": "alice", "slot": "employer", "value": "acme", "created": 5, "frame": 0}, {"op": "card", "entity": "Alice", "slot": "Employer", "value": "globex", "created": 6, "frame": 0}, {"op": "commit"}, {"op": "reopen"}], "queries": q}),
+        // ties in timestamp and score, instant index, update, delete of missing/deleted frames
+        json!({"ops": [{"op": "put", "text": "kiwi walnut", "ts": 1700000000, "uri": "mv2://c23/1", "instant": true}, {"op": "put", "text": "kiwi walnut", "ts": 1700000000, "uri": "mv2://c23/2"},
+            {"op": "put", "text": "kiwi walnut", "ts": 1699999999, "uri": "mv2://c23/3", "instant": true}, {"op": "search", "q": "kiwi", "k": 5}, {"op": "commit"}, {"op": "update", "id": 1, "text": "zebra quartz"},
+            {"op": "delete", "id": 0}, {"op": "delete", "id": 7}, {"op": "commit"}, {"op": "delete", "id": 0}, {"op": "reopen"}, {"op": "search", "q": "kiwi", "k": 5}], "queries": q}),
+    ]
+}
+
+fn run_batch(batch: &[Value], drv: &mut Option<Driver>, sum: &mut Summary, known: &[String], verbose: bool) {
+    match run_twins(batch) {
+        Ok(tw) => { for (h, t) in batch.iter().zip(tw.iter()) { judge(h, t, drv, sum, known, verbose); } }
+        Err(e) if batch.len() > 1 => {
+            sum.notes.push(format!("batch of {} failed ({e}); re-running one history per child pair", batch.len()));
+            for h in batch { run_batch(std::slice::from_ref(h), drv, sum, known, verbose); }
+        }
+        Err(e) => { sum.oracle_violation("execution-aborted", &format!("child process failed: {e}"), batch[0].clone()); sum.case(&batch[0].to_string(), false, || json!({})); }
+    }
+}
+
 fn main() {
     let argv: Vec<String> = std::env::args().collect();
     if argv.get(1).map(|x| x.as_str()) == Some("child") { child_main(&argv); }
-    if argv.get(1).map(|x| x.as_str()) == Some("probe") {
-        let batch: Vec<Value> = serde_json::from_str(&std::fs::read_to_string(&argv[2]).unwrap()).unwrap();
-        let tw = run_twins(&batch).unwrap();
-        for (i, t) in tw.iter().enumerate() {
-            let same = t.file_a == t.file_b;
-            let d = differing_regions(&t.file_a, &t.file_b);
-            println!("history {i}: len {} / {} bytes-equal={same} diff={:?}", t.file_a.len(), t.file_b.len(), d);
-            for k in ["results", "live", "reopened"] {
-                if t.a[k] != t.b[k] {
-                    println!("  {k} differs");
-                    if let (Some(oa), Some(ob)) = (t.a[k].as_object(), t.b[k].as_object()) {
-                        for (kk, va) in oa { if Some(va) != ob.get(kk) { println!("    {kk}:\n      A {}\n      B {}", va, ob.get(kk).unwrap_or(&Value::Null)); } }
-                    } else { println!("    A {}\n    B {}", t.a[k], t.b[k]); }
-                }
-            }
-            if argv.len() > 3 { println!("  A results: {}", t.a["results"]); }
-        }
-        return;
-    }
     let args = parse_args();
-    let sum = Summary::new("C23", &args, "todo");
+    let mut drv = if args.driver.to_str() == Some("none") { None } else { Some(Driver::spawn(&args.driver).expect("spawn driver")) };
+    let known: Vec<String> = args.extra.get("known").map(|s| s.split(',').map(|x| x.to_string()).collect()).unwrap_or_default();
+    let mut sum = Summary::new("C23", &args,
+        "histories of 0-12 calls (put text/binary with explicit timestamps, instant index on/off, triplet extraction on/off, update, delete incl. \
+         invalid ids, explicit memory cards, commit, reopen, search) each executed by two separate child processes on fresh paths in different \
+         directories, the second strictly later on the wall clock; compared: every call result, logical observation (all frame fields but the physical \
+         offset, canonical payload and text digests, timeline both directions, searches with scores, cards) of the live handle and of a reopened copy, \
+         file bytes region by region (regions from header/TOC); run A also compared with the Lean model (results, frames, timeline, cards, regions \
+         present in file order); non-trivial = has a put or a card; distinct = whole history");
+    sum.expect_branches(&["logical-observations-equal", "bytes-identical-as-predicted", "bytes-differ", "diff-set-exactly-as-predicted", "clock-in-wal-tombstone", "clock-in-card-created-at"]);
+    if args.mode == "replay" {
+        let case = load_replay(args.replay_file.as_ref().expect("replay file"));
+        let input = case.get("input").cloned().unwrap_or(case);
+        println!("history: {input}");
+        match run_twins(std::slice::from_ref(&input)) {
+            Ok(tw) => {
+                println!("run A: {}", tw[0].a["results"]); println!("run B: {}", tw[0].b["results"]);
+                println!("bytes equal: {}  (lengths {} / {})", tw[0].file_a == tw[0].file_b, tw[0].file_a.len(), tw[0].file_b.len());
+                judge(&input, &tw[0], &mut drv, &mut sum, &known, true);
+            }
+            Err(e) => sum.oracle_violation("execution-aborted", &e, input.clone()),
+        }
+        if let Some(d) = drv.as_ref() { sum.model_requests = d.requests; }
+        sum.finish(&args);
+    }
+    let mut rng = Rng::new(args.seed);
+    let mut all = corpus();
+    let n = if args.thorough { 260 } else { 14 };
+    for _ in 0..n { all.push(gen_history(&mut rng)); }
+    // several child pairs, so that one process does not run everything (per-process hash seeds, global state)
+    let per = if args.thorough { 20 } else { 11 };
+    for chunk in all.chunks(per) {
+        run_batch(chunk, &mut drv, &mut sum, &known, false);
+        if sum.oracle_violations.len() + sum.disagreements.len() >= 8 { break; }
+    }
+    if let Some(d) = drv.as_ref() { sum.model_requests = d.requests; }
     sum.finish(&args);
 }
